@@ -79,6 +79,20 @@ func (cb *ctxBuf) get2(c []byte) []byte {
 	return cb.buf
 }
 
+// noCtxChooser: every other step with the empty context uses the API variant WITHOUT a context argument
+// (BlindPublicKey, UnblindPublicKey, BlindKeySign); it must reproduce the empty context's results - the trace
+// records context "" either way, so the tables of Trace_KeyBlind compare the two variants with each other.
+func noCtxChooser() func(s map[string]any) bool {
+	n := 0
+	return func(s map[string]any) bool {
+		if c, _ := s["ctx"].(string); c != "" {
+			return false
+		}
+		n++
+		return n%2 == 0
+	}
+}
+
 func kbContext(name string) []byte {
 	switch name {
 	case "":
@@ -129,6 +143,7 @@ func execKeyBlind(c *ctx, in ev) []ev {
 	sigs := []struct{ r, s *big.Int }{}
 	enc := func(k *ecdsa.PublicKey) []byte { return elliptic.Marshal(curve, k.X, k.Y) }
 	cb := &ctxBuf{}
+	noCtx := noCtxChooser()
 	sks := map[string]*ecdsa.PrivateKey{}
 	for _, name := range []string{"s1", "s2", "s3"} {
 		sk, _ := ecdsa.CreateKey(curve, kbScalar(c.seed, curve, "sk-"+name).Bytes())
@@ -148,9 +163,14 @@ func execKeyBlind(c *ctx, in ev) []ev {
 			var res *ecdsa.PublicKey
 			var err error
 			p := guard(func() {
-				if op == "Blind" {
+				switch {
+				case op == "Blind" && noCtx(s):
+					res, err = ecdsa.BlindPublicKey(curve, pool[idx], bk) // the API without a context = the empty context
+				case op == "Blind":
 					res, err = ecdsa.BlindPublicKeyWithContext(curve, pool[idx], bk, ctx)
-				} else {
+				case noCtx(s):
+					res, err = ecdsa.UnblindPublicKey(curve, pool[idx], bk)
+				default:
 					res, err = ecdsa.UnblindPublicKeyWithContext(curve, pool[idx], bk, ctx)
 				}
 			})
@@ -176,7 +196,11 @@ func execKeyBlind(c *ctx, in ev) []ev {
 					bname, cname := s["b"].(string), s["ctx"].(string)
 					e["b"], e["ctx"] = bname, cname
 					bk, _ := ecdsa.CreateKey(curve, kbBlindBytes(c.seed, curve, bname))
-					r, sv, err = ecdsa.BlindKeySignWithContext(cryptorand.Reader, sks[skn], bk, kbDigest(c.seed, dname), cb.get(cname))
+					if noCtx(s) {
+						r, sv, err = ecdsa.BlindKeySign(cryptorand.Reader, sks[skn], bk, kbDigest(c.seed, dname))
+					} else {
+						r, sv, err = ecdsa.BlindKeySignWithContext(cryptorand.Reader, sks[skn], bk, kbDigest(c.seed, dname), cb.get(cname))
+					}
 				} else {
 					r, sv, err = ecdsa.Sign(cryptorand.Reader, sks[skn], kbDigest(c.seed, dname))
 				}
@@ -280,6 +304,7 @@ func execKeyBlindEd(c *ctx, in ev) []ev {
 	sigIDs := &interner{m: map[string]string{}, p: "S"}
 	pool := [][]byte{}
 	sigs := [][]byte{}
+	noCtx := noCtxChooser()
 	sks := map[string]ed25519.PrivateKey{}
 	for _, name := range []string{"s1", "s2", "s3"} {
 		sk := ed25519.NewKeyFromSeed(hashBytes(c.seed, "kb-ed-seed-"+name, 32))
@@ -298,9 +323,14 @@ func execKeyBlindEd(c *ctx, in ev) []ev {
 			var res ed25519.PublicKey
 			var err error
 			p := guard(func() {
-				if op == "Blind" {
+				switch {
+				case op == "Blind" && noCtx(s):
+					res, err = ed25519.BlindPublicKey(append([]byte{}, pool[idx]...), edBlindBytes(c.seed, bname))
+				case op == "Blind":
 					res, err = ed25519.BlindPublicKeyWithContext(append([]byte{}, pool[idx]...), edBlindBytes(c.seed, bname), edCtx(c.seed, cname))
-				} else {
+				case noCtx(s):
+					res, err = ed25519.UnblindPublicKey(append([]byte{}, pool[idx]...), edBlindBytes(c.seed, bname))
+				default:
 					res, err = ed25519.UnblindPublicKeyWithContext(append([]byte{}, pool[idx]...), edBlindBytes(c.seed, bname), edCtx(c.seed, cname))
 				}
 			})
@@ -337,7 +367,11 @@ func execKeyBlindEd(c *ctx, in ev) []ev {
 				if op == "BSign" {
 					bname, cname := s["b"].(string), s["ctx"].(string)
 					e["b"], e["ctx"] = bname, cname
-					sig = ed25519.BlindKeySignWithContext(sks[skn], kbDigest(c.seed, dname), edBlindBytes(c.seed, bname), edCtx(c.seed, cname))
+					if noCtx(s) {
+						sig = ed25519.BlindKeySign(sks[skn], kbDigest(c.seed, dname), edBlindBytes(c.seed, bname))
+					} else {
+						sig = ed25519.BlindKeySignWithContext(sks[skn], kbDigest(c.seed, dname), edBlindBytes(c.seed, bname), edCtx(c.seed, cname))
+					}
 				} else {
 					sig = ed25519.Sign(sks[skn], kbDigest(c.seed, dname))
 				}
